@@ -778,6 +778,14 @@ void Exec::run_op(const Op& op) {
         fetched = Crystal_GetCrystal(op.s.c_str(), nullptr, nullptr);
         if (!fetched) { executed = false; break; }
         cp = fetched;
+        if (op.id % 2) {
+          // A caller may keep the struct it was given in a variable of its own (the members stay owned by the copy).
+          // Doing so through the per-task slot gives consecutive, different crystals the same address, which the
+          // allocator would do in production and ASan's quarantine never does.
+          Crystal_Struct& slot = g_own_slot[(t_task ? t_task->id : 0) % MAXTASK];
+          slot = *fetched;
+          cp = &slot;
+        }
       } else if (!op.i[3]) {
         oc = new OwnCrystal(expand_crystal(op.cs));
         cp = &oc->cs;
